@@ -2,12 +2,25 @@
    json_decode modes) and the classes of values / trees the theorems quantify over.  The encoder has no
    separate reference: its faithfulness is stated as "the reference reader reads its output back as
    the value" (Properties.json_encode_denotes).  Shared with the model, hence not independent:
-   utf8_valid (the RFC 3629 table), nesting, int64_ok, f_finite (the treatment of repeated keys is NOT
-   shared: sp_dedupe below vs the model's insertion loop).  No proofs in this file. *)
+   nesting, int64_ok, f_finite.  NOT shared: the treatment of repeated keys (sp_dedupe below vs the model's
+   insertion loop) and UTF-8 (utf8_text below vs the model's validator table utf8_valid, which the boolean
+   class predicates use because it computes).  No proofs in this file. *)
 From Coq Require Import List NArith ZArith Bool.
 From V.C14 Require Import JsonModel.
 Import ListNotations.
 Open Scope N_scope.
+
+(* RFC 3629, independently of the validator table the model uses (utf8.ValidString): a byte string is
+   UTF-8 text iff it is the concatenation of the encodings of Unicode scalar values
+   (JsonProofs.utf8_valid_iff_text_l relates the two) *)
+Definition scalar (cp : N) : Prop := cp < 1114112 /\ ~ (55296 <= cp /\ cp <= 57343).
+Definition utf8_enc (cp : N) : bytes :=
+  if cp <? 128 then [cp]
+  else if cp <? 2048 then [192 + cp / 64; 128 + cp mod 64]
+  else if cp <? 65536 then [224 + cp / 4096; 128 + (cp / 64) mod 64; 128 + cp mod 64]
+  else [240 + cp / 262144; 128 + (cp / 4096) mod 64; 128 + (cp / 64) mod 64; 128 + cp mod 64].
+Definition utf8_text (s : bytes) : Prop := exists cps, Forall scalar cps /\ s = flat_map utf8_enc cps.
+
 
 (* which values have a JSON encoding at all: every float is finite, every string and key is UTF-8.
    (json_encode must answer false exactly on the others.) *)
